@@ -749,8 +749,8 @@ class Interp:
         if len(args) == 1 and (e.get('copy') or e.get('elidable')):
             yield from self.ev(args[0], st); return
         ctor = self.db.get(e.get('cu')) if e.get('cu') else None
-        if ctor is not None and ctor.get('inits') and len(ctor.get('params', [])) == len(args) and all(i.get('field') for i in ctor['inits']):
-            # a class with a member-init list: a record of its fields, initialised by evaluating the initialisers
+        if ctor is not None and ctor.get('inits') and len(ctor.get('params', [])) == len(args):
+            # a class with a member-init list: a record of its fields, initialised by evaluating the initialisers (delegation and bases included)
             def rec(i, acc, s):
                 if i == len(args): yield acc, s; return
                 for v, s2 in self.ev(args[i], s):
@@ -758,19 +758,32 @@ class Interp:
                     yield from rec(i + 1, acc + [v], s2)
             for av, s in rec(0, [], st):
                 if isinstance(av, Abort): yield av, s; continue
-                for p, v in zip(ctor['params'], av): s.env[p['id']] = v
-                def inits(j, fields, s3):
-                    if j == len(ctor['inits']): yield Rec(fields), s3; return
-                    it = ctor['inits'][j]
-                    try:
-                        for v, s4 in self.ev(it['e'], s3):
-                            if isinstance(v, Abort): yield v, s4; continue
-                            yield from inits(j + 1, dict(fields, **{it['field']: v}), s4)
-                    except Unmodelled:
-                        yield from inits(j + 1, dict(fields, **{it['field']: Opaque('field')}), s3)
-                yield from inits(0, {}, s)
+                yield from self.run_ctor(ctor, av, s)
             return
         yield from self.e_initlist(e, st)
+
+    def run_ctor(self, ctor, av, st):
+        """-> ( Rec of the fields, state ): member initialisers in order, each seeing the members before it; delegating and base initialisers merge the
+        record they produce"""
+        for p, v in zip(ctor['params'], av): st.env[p['id']] = v
+        prev = st.env.get('this')
+        def inits(j, fields, s3):
+            if j == len(ctor['inits']):
+                s3.env['this'] = prev
+                yield Rec(fields), s3; return
+            it = ctor['inits'][j]
+            s3.env['this'] = Rec(fields)
+            try:
+                vals = list(self.ev(it['e'], s3))
+            except Unmodelled:
+                vals = [(Opaque('field'), s3)]
+            for v, s4 in vals:
+                if isinstance(v, Abort): yield v, s4; continue
+                if it.get('field'): f2 = dict(fields, **{it['field']: v})
+                elif isinstance(v, Rec): f2 = dict(fields, **v.f)
+                else: f2 = fields
+                yield from inits(j + 1, f2, s4)
+        yield from inits(0, {}, st)
 
     def e_member(self, e, st):
         for b, s in self.ev(e['b'], st):
